@@ -1,6 +1,6 @@
 (* C05 Blocks nest and end correctly; Block tag names the active block. Statements only. *)
 From Coq Require Import ZArith List Bool Arith.
-From OP Require Import lib.Obs model.Interp model.InterpRun model.C05 proofs.Interp_inv proofs.C05_proofs.
+From OP Require Import lib.Obs model.Interp model.InterpRun model.C05 proofs.Interp_inv proofs.C05_proofs proofs.C05_pending.
 Import ListNotations.
 Open Scope Z_scope.
 
@@ -31,10 +31,22 @@ Theorem C05_views_are_those_states : forall p ts,
 Proof. intros p ts. apply states_are_views. Qed.
 Print Assumptions C05_views_are_those_states.
 
-(* PARTIAL. Proved: the chain clause. Checked by the Coq monitor on the real interpreter (and, through the correspondence,
-   on the model): the Block tag names the innermost active block and nothing when none is active; no Watch / Alarm of an
-   ended block stays in the interrupt map (REFUTED by a run found by the check: an Alarm inside a block that has ended
-   re-registers itself -- known finding); an instruction after a block starts only after the block has ended.
+(* 'End block' / 'End blocks' end the block(s) TOGETHER WITH THEIR PENDING WATCHES AND ALARMS: after EVERY tick of EVERY
+   run, no Watch / Alarm of the interrupt map lies inside a block that has ended -- for every method whose parent
+   pointers and child lists describe the same tree (tree_ok_b, evaluated by the check on every generated method), every
+   environment and any number of ticks. Three things make it true: End block removes every interrupt among the
+   descendants of the block it ends; nothing else sets block_ended; and (the /repo fix) _register_interrupt refuses a node
+   inside an ended block, which closes the three ways a Watch / Alarm used to get (back) into the map of an ended block:
+   its generator was still in the tick's copy of the map, an Alarm re-armed itself after its own body ended the block,
+   a line that had passed the ended-block test one tick earlier registered itself. *)
+Theorem C05_no_pending_watch_or_alarm_in_an_ended_block : forall p ts, tree_ok_b p = true ->
+  Forall (fun v => no_pending_in_ended p v = true) (InterpRun.run (p, ts)).
+Proof. intros p ts H. apply no_pending_always. now apply tree_ok_tree. Qed.
+Print Assumptions C05_no_pending_watch_or_alarm_in_an_ended_block.
+
+(* PARTIAL. Proved: the chain clause and the pending-interrupt clause. Checked by the Coq monitor on the real interpreter
+   (and, through the correspondence, on the model): the Block tag names the innermost active block and nothing when none
+   is active; an instruction after a block starts only after the block has ended.
    Not modelled: macros (a Block inside a macro called from inside another block can never take the lock -- its static
    ancestors do not include the caller's block -- and the run stalls; observed while building C41). *)
 Example C05_nonvacuous :
@@ -46,4 +58,11 @@ Example C05_nonvacuous :
   let t := {| t_complete := []; t_dt := 1; t_thr_wait := []; t_cond_true := []; t_cond_err := [] |} in
   map v_block (InterpRun.run (p, repeat t 12)) =
   [None; None; Some 1%nat; Some 1%nat; Some 1%nat; None; None; None; None; None; None; None].
+Proof. vm_compute. reflexivity. Qed.
+Example C05_tree_ok_nonvacuous :
+  tree_ok_b [ {| n_kind := KProgram; n_parent := None; n_children := [1; 4]%nat; n_thr := false |};
+              {| n_kind := KBlock; n_parent := Some 0%nat; n_children := [2; 3]%nat; n_thr := false |};
+              {| n_kind := KWatch; n_parent := Some 1%nat; n_children := []; n_thr := false |};
+              {| n_kind := KEndBlock; n_parent := Some 1%nat; n_children := []; n_thr := false |};
+              {| n_kind := KMark; n_parent := Some 0%nat; n_children := []; n_thr := false |} ] = true.
 Proof. vm_compute. reflexivity. Qed.
